@@ -6,7 +6,6 @@ import (
 
 	"github.com/vektah/gqlparser/v2/ast"
 	"github.com/vektah/gqlparser/v2/parser"
-	"github.com/vektah/gqlparser/v2/validator"
 
 	"verifsim/core"
 )
@@ -271,7 +270,7 @@ func Generate(s *ast.Schema, t *core.Tape, o GenOpts) (op Op, discarded int, ok 
 			discarded++
 			continue
 		}
-		if errs := validator.Validate(s, doc); len(errs) > 0 {
+		if errs := Validate(s, doc); len(errs) > 0 {
 			discarded++
 			continue
 		}
